@@ -2,6 +2,7 @@ use crate::engine::Ctx;
 use serde_json::Value as J;
 
 pub mod c01;
+pub mod c02;
 pub mod c05;
 pub mod c06;
 pub mod c18;
@@ -21,7 +22,7 @@ pub struct Prop {
 }
 
 pub fn all() -> Vec<Prop> {
-    vec![c01::prop(), c05::prop(), c06::prop(), c18::prop()]
+    vec![c01::prop(), c02::prop(), c05::prop(), c06::prop(), c18::prop()]
 }
 
 pub fn get(id: &str) -> Option<Prop> {
